@@ -160,7 +160,13 @@ def compile_col_expr(
 
         if expr.op in (ops.rank, ops.dense_rank):
             assert len(expr.args) == 0
-            args = [pl.struct(merge_desc_nulls_last(order_by, descending, nulls_last))]
+            # give the struct fields unique names (the same column may occur twice)
+            args = [
+                pl.struct(
+                    key.alias(f"__rank_key_{i}__")
+                    for i, key in enumerate(merge_desc_nulls_last(order_by, descending, nulls_last))
+                )
+            ]
             arrange = None
 
         value: pl.Expr = impl(*args, _partition_by=partition_by, **(op_kwargs or {}))
